@@ -227,6 +227,17 @@ Proof.
 Qed.
 Print Assumptions C13_loader_returns_saved.
 
+(* The loader is a function of the files only: any sequence of load_waveforms calls (same or fresh
+   loader) leaves the four files unchanged, and each call returns what that query returns on the
+   initial files — hence the same value every time it is repeated.  (That the implementation's
+   results do not ALIAS the files or the loader's arrays is not a statement about this pure model:
+   it is validated on the real code by call sequences with in-place mutation, not proved.) *)
+Theorem C13_loader_sequence_pure : forall V (F : files V) (qs : list query),
+  fst (loader_calls V F qs) = F /\
+  snd (loader_calls V F qs) = map (fun q => snd (loader_call V F q)) qs.
+Proof. exact loader_calls_pure. Qed.
+Print Assumptions C13_loader_sequence_pure.
+
 (* The hypothesis trough_offset <= chunk size (with more than one chunk) cannot be dropped:
    with chunk size 8 < trough_offset 10 the second job's snippet start s0 - trough_offset is
    negative, the Python slice wraps to the end of the file, the snippet is empty and the job
